@@ -838,7 +838,30 @@ func (e *CoreExtension) testSameAs(value interface{}, args ...interface{}) (bool
 	if len(args) == 0 {
 		return false, errors.New("same_as test requires an argument")
 	}
-	return value == args[0], nil
+	return sameValue(value, args[0]), nil
+}
+
+// sameValue reports whether two values are identical. Lists, hashes and functions cannot be
+// compared with == (the runtime panics with "comparing uncomparable type"); they are the same
+// when they are the same object.
+func sameValue(a, b interface{}) bool {
+	if a == nil || b == nil {
+		return a == nil && b == nil
+	}
+	va, vb := reflect.ValueOf(a), reflect.ValueOf(b)
+	if va.Type() != vb.Type() {
+		return false
+	}
+	switch va.Kind() {
+	case reflect.Slice:
+		return va.Len() == vb.Len() && va.Pointer() == vb.Pointer()
+	case reflect.Map, reflect.Func:
+		return va.Pointer() == vb.Pointer()
+	}
+	if !va.Type().Comparable() {
+		return false
+	}
+	return a == b
 }
 
 func (e *CoreExtension) testDivisibleBy(value interface{}, args ...interface{}) (bool, error) {
@@ -962,7 +985,7 @@ func (e *CoreExtension) operatorIs(left, right interface{}) (interface{}, error)
 	}
 
 	// For all other cases, do simple equality check
-	return left == right, nil
+	return sameValue(left, right), nil
 }
 
 func (e *CoreExtension) operatorIsNot(left, right interface{}) (interface{}, error) {
